@@ -131,7 +131,9 @@ CHECKS = {
         'bit-identical before and after each call. SOURCE TIE: Device.pgm is re-translated from /repo/src/femto/device.py on every run '
         '(SrcRp.v) and EquivRp.v proves SRC_C09_device_pgm / _state_independent / _repeat / _history / _log: after an export the '
         'estimate is the symbolic sum 0.0 + t_1 + ... of the _fabtime each writer holds after its own pgm(), read in the order of '
-        'self.writers, whatever the device held before and however many exports preceded; each export runs every writer once.',
+        'self.writers, whatever the device held before and however many exports preceded; each export runs every writer once; SrcWn.v / SrcTn.v: '
+        'a writer holding objects stores the estimate of this export on every export (event WFab), nothing is stored under `if verbose`; SrcRt.v / '
+        'EquivRt.v: Trench.toolpath restarts _wall_length and _floor_length before reading either (state independence, repeat, history).',
    note='Trusted: Coq kernel; harness/py2coq.py (group SrcRp.v) and coq/tie/RpState.v (float + kept symbolic); SHA-1 digests and the snapshot code in harness/c09.py; plotly figures digested through their numeric '
         'trace data. Purity of numpy/shapely internals is observed, not proved.',
    design='5/C09'),
